@@ -45,6 +45,37 @@ class GlobalsWrapper():
         else:
             raise NameError(name)
 
+
+class ConfigAwareBuiltins(dict):
+    ''' A mapping used as ``__builtins__`` of the namespace in which the code of an eval node runs.
+
+        Python looks a global name up in the namespace itself (definitions made by the code and symbols provided
+        by the evaluation context) and then in ``__builtins__`` - also from nested functions, lambdas, comprehensions
+        and class bodies - so names of the top-level config entries can be resolved here, lazily, right before
+        falling back to the real builtins.  This replaces rewriting of the compiled bytecode, which is tied to
+        a particular CPython version (and produces invalid code on CPython 3.12).
+    '''
+    def __init__(self, ecfg, ctx, node, path):
+        import builtins
+        super().__init__()
+        self._builtins = builtins
+        self.ecfg = ecfg
+        self.ctx = ctx
+        self.node = node
+        self.path = path
+        # these two are looked up by the interpreter directly, without calling __missing__
+        self['__import__'] = builtins.__import__
+        self['__build_class__'] = builtins.__build_class__
+
+    def __missing__(self, name):
+        if name in self.ecfg._cfgobj:
+            with self.ctx.require_all_safe(self.node, self.path):
+                return self.ecfg[name]
+        try:
+            return getattr(self._builtins, name)
+        except AttributeError:
+            raise KeyError(name) from None
+
 class EvalNode(ConfigScalar(str)):
     ''' Implements ``!eval`` tag.
 
@@ -104,7 +135,7 @@ class EvalNode(ConfigScalar(str)):
             gbls.update(ctx.get_eval_symbols())
             gbls.update({ '__name__': eval_module_name, '__file__': self._source_file })
 
-        gbls[EvalNode._globals_wrapper_name] = GlobalsWrapper(gbls, ctx.ecfg, ctx, self, path)
+        gbls['__builtins__'] = ConfigAwareBuiltins(ctx.ecfg, ctx, self, path)
 
         lines = self.strip().split('\n')
         lines = [lline for line in lines for lline in line.split(';')]
@@ -118,10 +149,8 @@ class EvalNode(ConfigScalar(str)):
         try:
             exec_code = compile(exec_lines, filename, 'exec')
             eval_code = compile(eval_line, filename, 'eval')
-            exec_code_patched, _ = EvalNode._patch_access_to_globals(exec_code)
-            eval_code_patched, _ = EvalNode._patch_access_to_globals(eval_code)
-            exec(exec_code_patched, gbls)
-            ret = eval(eval_code_patched, gbls)
+            exec(exec_code, gbls)
+            ret = eval(eval_code, gbls)
         except EvalError as e:
             code = f'=== CODE BEGINS ===\n{os.linesep.join(lines)}\n=== CODE ENDS ==='
             if e.node is self:
@@ -132,8 +161,6 @@ class EvalNode(ConfigScalar(str)):
         except Exception as e:
             code = f'=== CODE BEGINS ===\n{os.linesep.join(lines)}\n=== CODE ENDS ==='
             raise EvalError('The above exception occurred in the user code.', self, path, note=code) from e
-
-        del gbls[EvalNode._globals_wrapper_name]
 
         if len(lines) > 1 and self.persistent_namespace and not from_module:
             eval_node_module = types.ModuleType(eval_module_name, 'Dynamic module to evaluate awesomeyaml !eval node')
